@@ -16,7 +16,7 @@ where
     let mut eigenvalue = eigenvector.max().unwrap(); // Matrix won't be empty here
     eigenvector = eigenvector / eigenvalue; // Normalised Eigenvector
     // The stopping rule alone does not bound the loop (zero, nilpotent or rotation-like input)
-    for _ in 0..MAX_ITERATIONS {
+    for pass in 0..MAX_ITERATIONS {
         eigenvector = &matrix * eigenvector;
         let normalisation_value = eigenvector.max().unwrap(); // Matrix also won't be empty here
         let normalised_eigenvector = &eigenvector / normalisation_value;
@@ -30,7 +30,8 @@ where
 
         eigenvalue = next_eigenvalue;
         eigenvector = normalised_eigenvector;
-        if ea < es {
+        // The first pass compares the Rayleigh quotient with a different estimate (the maximum of A*1)
+        if pass > 0 && ea < es {
             // Scale so that the largest component is 1 (a negative eigenvalue flips the signs)
             let largest = eigenvector.max().unwrap();
             return Ok((eigenvalue, &eigenvector / largest));
